@@ -123,4 +123,509 @@ example : ∀ d ∈ defsOf [.bfRange [((0x20, 0x7e, 1), [[0x20]]), ((0x41, 0x5a,
   simp [defsOf, defsOfChars, defsOfRanges] at hd
   rcases hd with h | h | h | h <;> subst h <;> simp [Def.wf, Def.single]
 
+/-! ### what the code computes in general, and the guard under which it is right -/
+
+/-- the value stored for code `x` of length `l` after `from_sections`, in terms of the definitions -/
+def storedAt (ds : List Def) (l x : Nat) : Option Target := (lastCovering ds x l).map storedOf
+
+/-- **cmap_get_run** — what `get` computes for EVERY CMap (well-formed or not, any targets):
+the target stored for the last covering definition, evaluated with the offset counted from
+the start of the maximal neighbourhood of codes carrying an EQUAL stored target
+(`reachDown`), not from the start of the definition. All defects F-C15-a..d are instances. -/
+theorem cmap_get_run (ss : List Section) (hok : ∀ d ∈ defsOf ss, putOk d ∧ rangeOk d) (c l : Nat) :
+    ∃ m, fromSections ss = some m ∧
+      get m c l =
+        match lastCovering (defsOf ss) c l with
+        | none => .ok none
+        | some D => targetAt c (reachDown (storedAt (defsOf ss) l) (storedOf D) c) (storedOf D) := by
+  obtain ⟨m, hm, hinv, hval⟩ := fromSections_val ss hok
+  refine ⟨m, hm, ?_⟩
+  have hfun : rmVal (m l) = storedAt (defsOf ss) l := funext fun x => hval x l
+  cases hl : lastCovering (defsOf ss) c l with
+  | none =>
+    have : rmVal (m l) c = none := by rw [hval, hl]; rfl
+    rw [get_unmapped hinv this]
+  | some D =>
+    have hD := lastCoveringFrom_some hl
+    simp only [reduceCtorEq, or_false] at hD
+    obtain ⟨hmem, hcov⟩ := hD
+    obtain ⟨hlen, _, _⟩ := covers_iff.mp hcov
+    have hb : badLen l = false := by
+      have := (hok D hmem).1
+      subst hlen; exact badLen_false this.2.1 this.2.2
+    have hv : rmVal (m l) c = some (storedOf D) := by rw [hval, hl]; rfl
+    unfold rmVal at hv
+    cases hf : rmFind (m l) c with
+    | none => rw [hf] at hv; simp at hv
+    | some r =>
+      obtain ⟨s, e, t⟩ := r
+      rw [hf] at hv
+      simp only [Option.map_some, Option.some.injEq] at hv
+      subst hv
+      rw [get_of_find hinv hb hf]
+      have hkv : rmGetKV (m l) c = some (s, e, storedOf D) := by rw [rmGetKV_eq_find (hinv l), hf]
+      have := (rm_run_start (hinv l) hkv).1
+      rw [hfun] at this
+      simp only [this]
+
+theorem dropLast_append_last : ∀ (l : List Nat) (a : Nat), l.getLast? = some a → l.dropLast ++ [a] = l
+  | [], a, h => by simp at h
+  | [x], a, h => by simp at h; simp [h]
+  | x :: y :: t, a, h => by
+    have h' : (y :: t).getLast? = some a := by simpa [List.getLast?_cons_cons] using h
+    have := dropLast_append_last (y :: t) a h'
+    simp only [List.dropLast_cons_cons, List.cons_append, this]
+
+/-- If the run starts where the definition starts, a well-formed definition is evaluated correctly. -/
+theorem targetAt_own_start (D : Def) (hwf : D.wf) (c : Nat) (hlo : D.lo ≤ c) (hhi : c ≤ D.hi) (hc : c < U32) :
+    targetAt c D.lo (storedOf D) = .ok (D.target c) := by
+  cases D with
+  | char code len dst =>
+    simp only [Def.lo, Def.hi] at hlo hhi
+    have hcc : c = code := by omega
+    subst hcc
+    obtain ⟨_, _, _, hne, hu⟩ := hwf
+    cases dst with
+    | nil => exact absurd rfl hne
+    | cons u t =>
+      cases t with
+      | nil =>
+        simp only [storedOf, Def.target, targetAt, Def.lo]
+        rw [single_arith u c c (Nat.le_refl _) hc (by have := hu u (by simp); omega)]
+        simp
+      | cons v t' =>
+        simp only [storedOf, Def.target, targetAt, Def.lo, Nat.sub_self]
+        cases hg : (u :: v :: t').getLast? with
+        | none => simp at hg
+        | some last =>
+          have hlast : last < 65536 := hu last (List.mem_of_getLast? hg)
+          have : ¬ (last + 0 % U16 ≥ U16) := by unfold U16; omega
+          simp only [this, if_false]
+          have e0 : last + 0 % U16 = last := by unfold U16; omega
+          rw [e0, dropLast_append_last _ last hg]
+  | range lo hi len dsts =>
+    simp only [Def.lo, Def.hi] at hlo hhi
+    obtain ⟨_, _, hlh, _, hne, hts, hshape⟩ := hwf
+    cases dsts with
+    | nil => exact absurd rfl hne
+    | cons t rest =>
+      cases rest with
+      | nil =>
+        cases t with
+        | nil => exact absurd rfl (hts [] (by simp)).1
+        | cons u t' =>
+          cases t' with
+          | nil =>
+            have hfit : u + (hi - lo) < 65536 := hshape u rfl
+            simp only [storedOf, Def.target, targetAt, Def.lo, List.getLast?_singleton, List.dropLast_singleton,
+              List.nil_append]
+            rw [single_arith u lo c hlo hc (by omega)]
+          | cons v t'' =>
+            simp only [storedOf, Def.target, targetAt, Def.lo]
+            cases hg : (u :: v :: t'').getLast? with
+            | none => simp at hg
+            | some last =>
+              have hfit : last + (hi - lo) < 65536 := hshape last hg
+              have e0 : (c - lo) % U16 = c - lo := by unfold U16; omega
+              have : ¬ (last + (c - lo) ≥ U16) := by unfold U16; omega
+              simp only [e0, this, if_false]
+      | cons t2 rest2 =>
+        have hlen : (t :: t2 :: rest2).length = hi - lo + 1 := hshape
+        simp only [storedOf, Def.target, targetAt, Def.lo]
+        have hidx : c - lo < (t :: t2 :: rest2).length := by omega
+        rw [List.getElem?_eq_getElem hidx]
+
+/-- the value of a single-unit definition does not depend on where the stored run starts -/
+theorem targetAt_single (D : Def) (hs : D.single = true) (c s s' : Nat) :
+    targetAt c s (storedOf D) = targetAt c s' (storedOf D) := by
+  cases D with
+  | char code len dst =>
+    match dst, hs with
+    | [u], _ => rfl
+  | range lo hi len dsts =>
+    match dsts, hs with
+    | [[u]], _ => rfl
+
+/-- two definitions touch: same code length, ranges overlapping or adjacent -/
+def touchesB (d e : Def) : Bool :=
+  decide (d.len = e.len) && decide (d.lo ≤ e.hi + 1) && decide (e.lo ≤ d.hi + 1)
+
+def sepPair (d e : Def) : Bool := (d.single && e.single) || !touchesB d e
+
+/-- **the guard** (decidable, on the input): every definition that is not single-unit touches
+no other definition of the CMap. -/
+def separated : List Def → Bool
+  | [] => true
+  | d :: ds => ds.all (sepPair d) && separated ds
+
+theorem sepPair_iff {d e : Def} : sepPair d e = true ↔
+    (d.single = true ∧ e.single = true) ∨ ¬ (d.len = e.len ∧ d.lo ≤ e.hi + 1 ∧ e.lo ≤ d.hi + 1) := by
+  unfold sepPair touchesB
+  by_cases h1 : d.single = true <;> by_cases h2 : e.single = true <;> by_cases a : d.len = e.len <;>
+    by_cases b : d.lo ≤ e.hi + 1 <;> by_cases c : e.lo ≤ d.hi + 1 <;> simp [h1, h2, a, b, c]
+
+theorem sepPair_symm {d e : Def} (h : sepPair d e = true) : sepPair e d = true := by
+  rw [sepPair_iff] at h ⊢
+  rcases h with h | h
+  · exact Or.inl ⟨h.2, h.1⟩
+  · exact Or.inr (fun ⟨a, b, c⟩ => h ⟨a.symm, c, b⟩)
+
+theorem separated_mem {ds : List Def} (h : separated ds = true) {a b : Def} (ha : a ∈ ds) (hb : b ∈ ds) :
+    a = b ∨ sepPair a b = true := by
+  induction ds with
+  | nil => cases ha
+  | cons d ds ih =>
+    simp only [separated, Bool.and_eq_true, List.all_eq_true] at h
+    rcases List.mem_cons.mp ha with ha' | ha' <;> rcases List.mem_cons.mp hb with hb' | hb'
+    · exact Or.inl (ha'.trans hb'.symm)
+    · rw [ha']; exact Or.inr (h.1 b hb')
+    · rw [hb']; exact Or.inr (sepPair_symm (h.1 a ha'))
+    · exact ih h.2 ha' hb'
+
+theorem lastCoveringFrom_isSome {acc : Option Def} {ds : List Def} {c l : Nat}
+    (h : acc.isSome = true ∨ ∃ d ∈ ds, d.covers c l = true) : (lastCoveringFrom acc ds c l).isSome = true := by
+  induction ds generalizing acc with
+  | nil =>
+    rcases h with h | ⟨d, hd, _⟩
+    · exact h
+    · cases hd
+  | cons d ds ih =>
+    unfold lastCoveringFrom
+    apply ih
+    by_cases hc : d.covers c l = true
+    · left; simp [hc]
+    · rcases h with h | ⟨d', hd', hc'⟩
+      · left; simp [hc, h]
+      · rcases List.mem_cons.mp hd' with e | e
+        · subst e; exact absurd hc' hc
+        · right; exact ⟨d', e, hc'⟩
+
+/-- **cmap_get_partial** — the full statement of C15 for ARBITRARY targets (multi-unit strings,
+incrementing ranges, arrays, surrogate pairs, mixed with single-unit definitions in any order,
+which may overlap each other freely) under the guard `separated`: for every code of every
+length, `get` returns exactly what the CMap defines. -/
+theorem cmap_get_partial (ss : List Section)
+    (hwf : ∀ d ∈ defsOf ss, d.wf) (hsep : separated (defsOf ss) = true) (c l : Nat) (hc : c < U32) :
+    ∃ m, fromSections ss = some m ∧ get m c l = .ok (defines (defsOf ss) c l) := by
+  have hok : ∀ d ∈ defsOf ss, putOk d ∧ rangeOk d := by
+    intro d hd
+    have w := hwf d hd
+    cases d with
+    | char code len dst => exact ⟨⟨Nat.le_refl _, w.1, w.2.1⟩, trivial⟩
+    | range lo hi len dsts => exact ⟨⟨w.2.2.1, w.1, w.2.1⟩, w.2.2.1, w.2.2.2.2.1⟩
+  obtain ⟨m, hm, hget⟩ := cmap_get_run ss hok c l
+  refine ⟨m, hm, ?_⟩
+  rw [hget]
+  unfold defines
+  cases hl : lastCovering (defsOf ss) c l with
+  | none => rfl
+  | some D =>
+    have hD := lastCoveringFrom_some hl
+    simp only [reduceCtorEq, or_false] at hD
+    obtain ⟨hmem, hcov⟩ := hD
+    obtain ⟨hlen, hlo, hhi⟩ := covers_iff.mp hcov
+    simp only [Option.bind_some]
+    rw [← targetAt_own_start D (hwf D hmem) c hlo hhi hc]
+    by_cases hs : D.single = true
+    · exact targetAt_single D hs c _ _
+    · -- a non-single definition touches nothing: its stored neighbourhood is exactly its own range
+      have hothers : ∀ x D', lastCovering (defsOf ss) x l = some D' → D'.lo ≤ D.hi + 1 → D.lo ≤ D'.hi + 1 → D' = D := by
+        intro x D' hx h1 h2
+        have hD' := lastCoveringFrom_some hx
+        simp only [reduceCtorEq, or_false] at hD'
+        obtain ⟨hmem', hcov'⟩ := hD'
+        obtain ⟨hlen', _, _⟩ := covers_iff.mp hcov'
+        rcases separated_mem hsep hmem' hmem with e | e
+        · exact e
+        · rw [sepPair_iff] at e
+          rcases e with e | e
+          · exact absurd e.2 hs
+          · exact absurd ⟨hlen'.trans hlen.symm, h1, h2⟩ e
+      have hin : ∀ x, D.lo ≤ x → x ≤ D.lo + (c - D.lo) → storedAt (defsOf ss) l x = some (storedOf D) := by
+        intro x hx1 hx2
+        have hcx : D.covers x l = true := covers_iff.mpr ⟨hlen, hx1, by omega⟩
+        have hsome := lastCoveringFrom_isSome (acc := none) (Or.inr ⟨D, hmem, hcx⟩)
+        unfold storedAt
+        cases hx : lastCovering (defsOf ss) x l with
+        | none => unfold lastCovering at hx; rw [hx] at hsome; simp at hsome
+        | some D' =>
+          have hD' := lastCoveringFrom_some hx
+          simp only [reduceCtorEq, or_false] at hD'
+          obtain ⟨_, h1, h2⟩ := covers_iff.mp hD'.2
+          rw [hothers x D' hx (by omega) (by omega)]; rfl
+      have hbelow : 0 < D.lo → storedAt (defsOf ss) l (D.lo - 1) ≠ some (storedOf D) := by
+        intro hpos
+        unfold storedAt
+        cases hx : lastCovering (defsOf ss) (D.lo - 1) l with
+        | none => simp
+        | some D' =>
+          have hD' := lastCoveringFrom_some hx
+          simp only [reduceCtorEq, or_false] at hD'
+          obtain ⟨_, h1, h2⟩ := covers_iff.mp hD'.2
+          have e := hothers _ D' hx (by omega) (by omega)
+          subst e
+          omega
+      have hcs : c = D.lo + (c - D.lo) := by omega
+      have := reachDown_eq (storedAt (defsOf ss) l) (storedOf D) D.lo (c - D.lo) hin hbelow
+      rw [← hcs] at this
+      rw [this]
+
+/-- non-vacuity of `cmap_get_partial`: ligature, incrementing multi-unit range, array with a
+surrogate pair, and overlapping single-unit definitions next to them -/
+example :
+    let ss : List Section :=
+      [.bfChar [((0x01, 1), [0x66, 0x69]), ((0x03, 1), [0x66, 0x6c])],
+       .bfRange [((0x10, 0x13, 1), [[0x41, 0x30]]), ((0x20, 0x21, 1), [[0xD83D, 0xDE00], [0x263a]]),
+                 ((0x30, 0x7e, 1), [[0x30]]), ((0x41, 0x5a, 1), [[0x61]])]]
+    (∀ d ∈ defsOf ss, d.wf) ∧ separated (defsOf ss) = true := by
+  refine ⟨?_, by decide⟩
+  intro d hd
+  simp [defsOf, defsOfChars, defsOfRanges] at hd
+  rcases hd with h | h | h | h | h | h <;> subst h <;> simp [Def.wf]
+
+/-! ### the full statement is false: concrete counter-witnesses (each replayed on the real code) -/
+
+/-- result of `get` after `from_sections` -/
+def getAfter (ss : List Section) (c l : Nat) : Option (Outcome (Option (List Nat))) :=
+  (fromSections ss).map fun m => get m c l
+
+/-- F-C15-a: two adjacent codes mapped to the same ligature: the second decodes as "fj". -/
+def witA : List Section := [.bfChar [((1, 1), [0x66, 0x69]), ((2, 1), [0x66, 0x69])]]
+theorem cmap_get_false_adjacent :
+    getAfter witA 2 1 = some (.ok (some [0x66, 0x6a])) ∧ defines (defsOf witA) 2 1 = some [0x66, 0x69] ∧
+    (fromSections witA).map (fun m => (bytesToUnits m [1, 2])) = some (.ok [0x66, 0x69, 0x66, 0x6a]) := by
+  decide
+
+/-- F-C15-b: a later bfchar inside an incrementing multi-unit range shifts the rest of the range. -/
+def witB : List Section := [.bfRange [((0x10, 0x13, 1), [[0x41, 0x42]])], .bfChar [((0x11, 1), [0x58])]]
+theorem cmap_get_false_split :
+    getAfter witB 0x12 1 = some (.ok (some [0x41, 0x42])) ∧ defines (defsOf witB) 0x12 1 = some [0x41, 0x44] := by
+  decide
+
+/-- F-C15-b (array): the remaining piece of an array range is indexed from its own start. -/
+def witB' : List Section :=
+  [.bfRange [((0x10, 0x12, 1), [[0x41, 0x41], [0x42, 0x42], [0x43, 0x43]])], .bfChar [((0x10, 1), [0x58])]]
+theorem cmap_get_false_split_array :
+    getAfter witB' 0x11 1 = some (.ok (some [0x41, 0x41])) ∧ defines (defsOf witB') 0x11 1 = some [0x42, 0x42] := by
+  decide
+
+/-- F-C15-c: two adjacent array ranges with equal arrays (a well-formed CMap): index panic. -/
+def witC : List Section :=
+  [.bfRange [((1, 2, 1), [[0x41, 0x41], [0x42, 0x42]]), ((3, 4, 1), [[0x41, 0x41], [0x42, 0x42]])]]
+theorem cmap_get_false_index_panic :
+    getAfter witC 3 1 = some (.panic CMAP_SITE_INDEX) ∧ defines (defsOf witC) 3 1 = some [0x41, 0x41] := by
+  decide
+
+/-- F-C15-d: coalesced equal targets ending in FFFF (a well-formed CMap): u16 overflow panic. -/
+def witD : List Section := [.bfChar [((1, 1), [0x41, 0xFFFF]), ((2, 1), [0x41, 0xFFFF])]]
+theorem cmap_get_false_overflow_panic :
+    getAfter witD 2 1 = some (.panic CMAP_SITE_ADD) ∧ defines (defsOf witD) 2 1 = some [0x41, 0xFFFF] := by
+  decide
+
+/-- the witnesses are well-formed CMaps (so the failures are not C04's "malformed input") -/
+theorem witnesses_wf : (∀ d ∈ defsOf witA, d.wf) ∧ (∀ d ∈ defsOf witB, d.wf) ∧ (∀ d ∈ defsOf witC, d.wf) ∧
+    (∀ d ∈ defsOf witD, d.wf) := by
+  refine ⟨?_, ?_, ?_, ?_⟩ <;> intro d hd <;>
+    simp [witA, witB, witC, witD, defsOf, defsOfChars, defsOfRanges] at hd
+  · rcases hd with h | h <;> subst h <;> simp [Def.wf]
+  · rcases hd with h | h <;> subst h <;> simp [Def.wf]
+  · rcases hd with h | h <;> subst h <;> simp [Def.wf]
+  · rcases hd with h | h <;> subst h <;> simp [Def.wf]
+
+/-- … and they are exactly outside the guard of `cmap_get_partial` -/
+theorem witnesses_not_separated : separated (defsOf witA) = false ∧ separated (defsOf witB) = false ∧
+    separated (defsOf witC) = false ∧ separated (defsOf witD) = false := by decide
+
+/-! ### segmentation of the byte string into codes -/
+
+/-- big-endian value of a code given as its bytes -/
+def codeVal (bs : List Nat) : Nat := bs.foldl (fun acc b => acc * 256 + b) 0
+
+theorem codeVal_snoc (bs : List Nat) (b : Nat) : codeVal (bs ++ [b]) = codeVal bs * 256 + b := by
+  simp [codeVal, List.foldl_append]
+
+/-- prepend units to a successful result -/
+def prependOk (v : List Nat) : Outcome (List Nat) → Outcome (List Nat)
+  | .ok r => .ok (v ++ r)
+  | .err e => .err e
+  | .panic s => .panic s
+
+theorem segLoop_cons (m : UMap) (st : Nat × Nat) (b : Nat) (bs : List Nat) :
+    segLoop m st (b :: bs) =
+      match segStep m st b with
+      | .ok (st', out) =>
+        (match segLoop m st' bs with
+         | .ok rest => .ok (out ++ rest)
+         | .err e => .err e
+         | .panic s => .panic s)
+      | .err e => .err e
+      | .panic s => .panic s := by
+  rw [segLoop]; rfl
+
+theorem segStep_hit {m : UMap} {n code b : Nat} {v : List Nat} (hn : n ≠ CMAP_SEG_MAX)
+    (hg : get m (code * 256 + b) (n + 1) = .ok (some v)) : segStep m (n, code) b = .ok ((0, 0), v) := by
+  simp [segStep, hn, hg]
+
+theorem segStep_miss {m : UMap} {n code b : Nat} (hn : n ≠ CMAP_SEG_MAX)
+    (hg : get m (code * 256 + b) (n + 1) = .ok none) :
+    segStep m (n, code) b = .ok ((n + 1, code * 256 + b), []) := by
+  simp [segStep, hn, hg]
+
+/-- One code: starting in the state reached after the bytes `pre`, if every proper prefix of
+`pre ++ suf` of length ≥ 1 that is still to be tried is unmapped and the whole code is mapped
+to `v`, the loop consumes exactly `suf`, emits `v` and is back in the initial state. -/
+theorem seg_one (m : UMap) (v : List Nat) (rest : List Nat) :
+    ∀ (suf pre : List Nat), suf ≠ [] → pre.length + suf.length ≤ 4 →
+      (∀ k, 0 < k → k < suf.length → get m (codeVal (pre ++ suf.take k)) (pre.length + k) = .ok none) →
+      get m (codeVal (pre ++ suf)) (pre.length + suf.length) = .ok (some v) →
+      segLoop m (pre.length, codeVal pre) (suf ++ rest) = prependOk v (segLoop m (0, 0) rest) := by
+  intro suf
+  induction suf with
+  | nil => intro pre h; exact absurd rfl h
+  | cons b suf ih =>
+    intro pre _ hlen hpre hfull
+    have hn : pre.length ≠ CMAP_SEG_MAX := by simp [CMAP_SEG_MAX] at hlen ⊢; omega
+    cases suf with
+    | nil =>
+      -- last byte of the code: mapped
+      have hg : get m (codeVal pre * 256 + b) (pre.length + 1) = .ok (some v) := by
+        rw [← codeVal_snoc]; simpa using hfull
+      show segLoop m (pre.length, codeVal pre) (b :: rest) = _
+      rw [segLoop_cons, segStep_hit hn hg]
+      dsimp only
+      generalize segLoop m (0, 0) rest = r
+      cases r <;> rfl
+    | cons b2 suf2 =>
+      have hg : get m (codeVal pre * 256 + b) (pre.length + 1) = .ok none := by
+        have := hpre 1 (by omega) (by simp)
+        rw [← codeVal_snoc]; simpa using this
+      show segLoop m (pre.length, codeVal pre) (b :: (b2 :: suf2 ++ rest)) = _
+      rw [segLoop_cons, segStep_miss hn hg]
+      dsimp only
+      have e1 : pre.length + 1 = (pre ++ [b]).length := by simp
+      have e2 : codeVal pre * 256 + b = codeVal (pre ++ [b]) := (codeVal_snoc pre b).symm
+      rw [e1, e2]
+      have := ih (pre ++ [b]) (by simp) (by simp at hlen ⊢; omega)
+        (fun k hk1 hk2 => by
+          have := hpre (k + 1) (by omega) (by simp at hk2 ⊢; omega)
+          simpa [List.take_succ_cons, Nat.add_assoc, Nat.add_comm 1 k] using this)
+        (by simpa [Nat.add_assoc, Nat.add_comm 1] using hfull)
+      rw [this]
+      generalize segLoop m (0, 0) rest = r
+      cases r <;> rfl
+
+/-- a code (as bytes) with its target, usable for exact segmentation w.r.t. the map `m` -/
+def SegOk (m : UMap) (bs v : List Nat) : Prop :=
+  bs ≠ [] ∧ bs.length ≤ 4 ∧
+  (∀ k, 0 < k → k < bs.length → get m (codeVal (bs.take k)) k = .ok none) ∧
+  get m (codeVal bs) bs.length = .ok (some v)
+
+/-- **segment_exact** — for every stored map and every byte string that is the concatenation of
+codes (1–4 bytes each) which are mapped and none of whose proper prefixes is mapped
+(prefix-free), `bytes_to_string`'s loop cuts the string into exactly these codes and emits
+the concatenation of their targets; no length bound on the string. -/
+theorem segment_exact (m : UMap) (codes : List (List Nat × List Nat))
+    (h : ∀ p ∈ codes, SegOk m p.1 p.2) :
+    bytesToUnits m (codes.flatMap (·.1)) = .ok (codes.flatMap (·.2)) := by
+  unfold bytesToUnits
+  induction codes with
+  | nil => simp [segLoop]
+  | cons p codes ih =>
+    obtain ⟨bs, v⟩ := p
+    obtain ⟨h1, h2, h3, h4⟩ := h (bs, v) List.mem_cons_self
+    simp only [List.flatMap_cons]
+    have := seg_one m v (codes.flatMap (·.1)) bs [] h1 (by simpa using h2)
+      (fun k hk1 hk2 => by simpa using h3 k hk1 hk2) (by simpa using h4)
+    simp only [List.length_nil, codeVal, List.foldl_nil] at this
+    rw [this, ih (fun p hp => h p (List.mem_cons_of_mem _ hp))]
+    rfl
+
+/-- non-vacuity of `segment_exact`: a 1-byte and a 2-byte code in one map (prefix-free) -/
+example : ∃ m, fromSections [.bfChar [((0x01, 1), [0x41]), ((0x8001, 2), [0x66, 0x69])]] = some m ∧
+    SegOk m [0x01] [0x41] ∧ SegOk m [0x80, 0x01] [0x66, 0x69] := by
+  refine ⟨_, rfl, ⟨by simp, by simp, ?_, by decide⟩, ⟨by simp, by simp, ?_, by decide⟩⟩
+  · intro k h1 h2; simp at h2; omega
+  · intro k h1 h2
+    have : k = 1 := by simp at h2; omega
+    subst this; decide
+
+/-! ### UTF-16: surrogate pairs become one scalar -/
+
+theorem utf16_encode_decode_from (cs : List Nat) (h : ∀ c ∈ cs, isScalar c) :
+    utf16Go none (encodeUtf16 cs) = cs := by
+  induction cs with
+  | nil => rfl
+  | cons c cs ih =>
+    have hc := h c List.mem_cons_self
+    have ih' := ih (fun c' hc' => h c' (List.mem_cons_of_mem _ hc'))
+    simp only [encodeUtf16, List.flatMap_cons] at ih' ⊢
+    by_cases hlt : c < 0x10000
+    · have e : encodeScalar c = [c] := by simp [encodeScalar, hlt]
+      rw [e]
+      simp only [List.cons_append, List.nil_append]
+      unfold utf16Go
+      have h1 : isHighSur c = false := by
+        unfold isHighSur; unfold isScalar at hc
+        simp only [Bool.and_eq_false_iff, decide_eq_false_iff_not]; omega
+      have h2 : isLowSur c = false := by
+        unfold isLowSur; unfold isScalar at hc
+        simp only [Bool.and_eq_false_iff, decide_eq_false_iff_not]; omega
+      simp only [h1, h2, Bool.false_eq_true, if_false]
+      rw [ih']
+    · have e : encodeScalar c = [0xD800 + (c - 0x10000) / 0x400, 0xDC00 + (c - 0x10000) % 0x400] := by
+        simp [encodeScalar, hlt]
+      rw [e]
+      simp only [List.cons_append, List.nil_append]
+      unfold isScalar at hc
+      have hi1 : isHighSur (0xD800 + (c - 0x10000) / 0x400) = true := by
+        unfold isHighSur
+        simp only [Bool.and_eq_true, decide_eq_true_eq]; omega
+      have lo1 : isLowSur (0xDC00 + (c - 0x10000) % 0x400) = true := by
+        unfold isLowSur
+        simp only [Bool.and_eq_true, decide_eq_true_eq]; omega
+      unfold utf16Go
+      simp only [hi1, if_true]
+      unfold utf16Go
+      simp only [lo1, if_true]
+      rw [ih']
+      have : surScalar (0xD800 + (c - 0x10000) / 0x400) (0xDC00 + (c - 0x10000) % 0x400) = c := by
+        unfold surScalar; omega
+      rw [this]
+
+/-- **surrogates_roundtrip** — decoding the UTF-16 encoding of any list of Unicode scalar values
+returns that list: every surrogate pair becomes ONE scalar value (and nothing else changes). -/
+theorem surrogates_roundtrip (cs : List Nat) (h : ∀ c ∈ cs, isScalar c) :
+    utf16Scalars (encodeUtf16 cs) = cs := utf16_encode_decode_from cs h
+
+/-- … and `decode_text`'s last step returns it unchanged unless the text starts with a unit the
+BOM sniffing of `UTF_16BE.decode` reacts to (F-C15-e). -/
+theorem decode_units_no_bom (us : List Nat)
+    (h : ∀ u, us.head? = some u → u ≠ 0xFEFF ∧ u ≠ 0xFFFE ∧ u ≠ 0xEFBB) :
+    decodeUnits us = .scalars (utf16Scalars us) := by
+  cases us with
+  | nil => rfl
+  | cons u rest =>
+    have ⟨a, b, c⟩ := h u rfl
+    simp [decodeUnits, a, b, c]
+
+/-- **decode_exact** — end to end on the model: for a byte string of mapped, prefix-free codes whose
+targets together are the UTF-16 encoding of the scalar values `cs` (not starting with a BOM-like
+unit), `decode_text` yields exactly `cs`. -/
+theorem decode_exact (m : UMap) (codes : List (List Nat × List Nat)) (cs : List Nat)
+    (hseg : ∀ p ∈ codes, SegOk m p.1 p.2) (hcs : ∀ c ∈ cs, isScalar c)
+    (henc : codes.flatMap (·.2) = encodeUtf16 cs)
+    (hbom : ∀ u, (encodeUtf16 cs).head? = some u → u ≠ 0xFEFF ∧ u ≠ 0xFFFE ∧ u ≠ 0xEFBB) :
+    (match bytesToUnits m (codes.flatMap (·.1)) with
+     | .ok us => some (decodeUnits us)
+     | _ => none) = some (.scalars cs) := by
+  rw [segment_exact m codes hseg, henc]
+  simp only [decode_units_no_bom _ hbom, surrogates_roundtrip cs hcs]
+
+/-- F-C15-e on the model: a text starting with U+FFFE is byte-swapped, a leading U+FEFF is dropped. -/
+theorem decode_false_bom :
+    decodeUnits [0xFFFE, 0x0041] = .scalars [0x4100] ∧ decodeUnits [0xFEFF, 0x0041] = .scalars [0x41] ∧
+    utf16Scalars [0xFFFE, 0x0041] = [0xFFFE, 0x41] := by decide
+
+example : utf16Scalars [0xD83D, 0xDE00, 0x41] = [0x1F600, 0x41] := by decide
+
 end Lopdf.CMap
